@@ -57,7 +57,7 @@ var unsafeWords = []string{"reboot", "exit", "rm", "exec", "cd", "set", "global"
 // split names: A is unsafe (or not a safe name), A+B is on the safe list
 var splitNames = [][2]string{{"exit", "num"}, {"cat", "ch"}, {"man", "-summary"}, {"murex", "-docs"}, {"get", "file"}, {"get", "-type"}, {"open", "-image"}, {"fid", "-list"}, {"struct", "-keys"}, {"t", "out"}, {"e", "scape"}, {"m", "sort"}, {"pre", "fix"}, {"pre", "pend"}, {"tab", "ulate"}, {"ex", "itnum"}, {"for", "mat"}, {"for", "map"}, {"for", "each"}, {"try", "pipe"}, {"ou", "t"}, {"run", "time"}, {"cpu", "count"}, {"l", "eft"}}
 
-var flowTokens = []string{"|", " | ", "| ", " |", "->", " -> ", "-> ", " ->", "=>", " => ", ";", "; ", " ; ", "&&", " && ", "||", " || ", "?:", " ?: ", " ? ", "|>", " |> ", " >> ", ">>", " > ", "\n", "\t|\t", " ->\t",
+var flowTokens = []string{"|", " | ", "| ", " |", "->", " -> ", "-> ", " ->", "=>", " => ", ";", "; ", " ; ", "&&", " && ", "||", " || ", "?:", " ?: ", " ? ", "? ", "\t? ", " ?\t", "|>", " |> ", " >> ", ">>", " > ", "\n", "\t|\t", " ->\t",
 	// a line comment ends at its line feed: what follows is a new command
 	" # note\n", " # a | b -> c\n", "\t#\n", " #x\n ", "\n# only a comment\n"}
 
